@@ -72,28 +72,28 @@ Definition coloff (dc : bool) : Z := if dc then 2 else 0.
 
 (* the loop of insertChildren; [before] = heights of items t, t-1, ..., 0.
    Result: (scroll.top, ah, children) *)
-Fixpoint ins_loop (before : list Z) (t ah co : Z) (acc : list child) : Z * Z * list child :=
+Fixpoint ins_loop (gap : Z) (before : list Z) (t ah co : Z) (acc : list child) : Z * Z * list child :=
   match before with
   | [] => (t, ah, acc)                           (* Builder(top) == nil: break *)
   | h :: rest =>
-      let ah' := ah - h in
+      let ah' := ah - (h + gap) in
       let acc' := mkC t ah' co h :: acc in       (* slices.Insert(p.Children, 0, ss) *)
       if (t =? 0) || (ah' <=? 0) then (t, ah', acc')
-      else ins_loop rest (u64 (t - 1)) ah' co acc'
+      else ins_loop gap rest (u64 (t - 1)) ah' co acc'
   end.
 
 (* "We reached the top widget but are below row 0": rows reassigned from a uint16 counter *)
-Fixpoint rerow (cs : list child) (row : Z) : list child :=
+Fixpoint rerow (gap : Z) (cs : list child) (row : Z) : list child :=
   match cs with
   | [] => []
-  | c :: t => mkC (c_idx c) row (c_col c) (c_h c) :: rerow t (u16 (row + c_h c))
+  | c :: t => mkC (c_idx c) row (c_col c) (c_h c) :: rerow gap t (u16 (row + c_h c + gap))
   end.
 
 (* insertChildren: (scroll.top, scroll.offset, children) *)
-Definition insert_children (hs : list Z) (co top ah : Z) : Z * Z * list child :=
+Definition insert_children (gap : Z) (hs : list Z) (co top ah : Z) : Z * Z * list child :=
   let t0 := u64 (top - 1) in
-  let '(t, ah', cs) := ins_loop (items_back hs t0) t0 ah co [] in
-  if (t =? 0) && (0 <? ah') then (t, 0, rerow cs 0) else (t, ah', cs).
+  let '(t, ah', cs) := ins_loop gap (items_back hs t0) t0 ah co [] in
+  if (t =? 0) && (0 <? ah') then (t, 0, rerow gap cs 0) else (t, ah', cs).
 
 (* the downward loop of Draw; [suffix] = heights of items i, i+1, ... *)
 Fixpoint down_loop (suffix : list Z) (i ah : Z) (wants : bool) (cur H gap co : Z) : list child :=
@@ -111,14 +111,15 @@ Fixpoint down_loop (suffix : list Z) (i ah : Z) (wants : bool) (cur H gap co : Z
 Definition shift (adj : Z) (cs : list child) : list child :=
   map (fun c => mkC (c_idx c) (c_row c + adj) (c_col c) (c_h c)) cs.
 
-Definition covers0 (c : child) : bool := (c_row c <=? 0) && (0 <? c_row c + c_h c).
+(* the child, or the gap below it, is on row 0 *)
+Definition covers0 (gap : Z) (c : child) : bool := (c_row c <=? 0) && (0 <? c_row c + c_h c + gap).
 
 (* "Reset origins and state based on actual draw" *)
-Fixpoint reset_loop (cs : list child) (k top off : Z) : Z * Z :=
+Fixpoint reset_loop (gap : Z) (cs : list child) (k top off : Z) : Z * Z :=
   match cs with
   | [] => (top, off)
-  | c :: t => if covers0 c then reset_loop t (k + 1) (u64 (top + k)) (- c_row c)
-              else reset_loop t (k + 1) top off
+  | c :: t => if covers0 gap c then reset_loop gap t (k + 1) (u64 (top + k)) (- c_row c)
+              else reset_loop gap t (k + 1) top off
   end.
 
 (* first half of Draw: pending scroll, upward insertion, downward loop.
@@ -130,9 +131,9 @@ Definition draw_layout (gap : Z) (dc : bool) (hs : list Z) (H : Z) (st : dstate)
   let i0 := d_top st in
   let '(top2, off2, ins, ah2) :=
     if 0 <? ah1 then
-      let '(t, o, cs) := insert_children hs co (d_top st) ah1 in
+      let '(t, o, cs) := insert_children gap hs co (d_top st) ah1 in
       match last_opt cs with
-      | Some l => (t, o, cs, c_row l + c_h l)
+      | Some l => (t, o, cs, c_row l + c_h l + gap)
       | None => (t, o, cs, ah1)
       end
     else (d_top st, off1, [], ah1) in
@@ -172,7 +173,7 @@ Definition draw (gap : Z) (dc : bool) (hs : list Z) (W H : Z) (st : dstate)
         match draw_follow (d_wants st) (d_cur st) top2 H cs1 with
         | None => Panic
         | Some (cs2, wants2) =>
-            let '(top3, off3) := reset_loop cs2 0 top2 off2 in
+            let '(top3, off3) := reset_loop gap cs2 0 top2 off2 in
             Ok (cs2, mkD (d_cur st) top3 off3 0 wants2)
         end
     end.
@@ -244,10 +245,11 @@ Definition dyn_case_matches (c : dyn_case) : bool :=
 
 Definition valid_index (c n : Z) : bool := (0 <=? c) && ((c <? n) || ((n =? 0) && (c =? 0))).
 
-(* scroll state anchored inside the top item: 0 <= offset, and offset < height(top) unless 0 *)
-Definition ioff (hs : list Z) (st : dstate) : bool :=
+(* scroll state anchored inside the top item or the gap below it:
+   0 <= offset, and offset < height(top) + gap unless 0 *)
+Definition ioff (gap : Z) (hs : list Z) (st : dstate) : bool :=
   (0 <=? d_off st) &&
-  ((d_off st =? 0) || match builder hs (d_top st) with Some h => d_off st <? h | None => false end).
+  ((d_off st =? 0) || match builder hs (d_top st) with Some h => d_off st <? h + gap | None => false end).
 
 Definition heights_ok (hs : list Z) (cs : list child) : bool :=
   forallb (fun c => option_eqb Z.eqb (builder hs (c_idx c)) (Some (c_h c))) cs.
@@ -263,13 +265,9 @@ Fixpoint adj {A} (R : A -> A -> bool) (l : list A) : bool :=
 Definition consecutive (cs : list child) : bool :=
   adj (fun a b => c_idx b =? c_idx a + 1) cs.
 
-(* each child starts where the previous one ends plus the gap; children inserted above the
-   previous top item ([c_idx a < top0]) are stacked without the gap (finding class gap-insert) *)
-Definition spacing (gap top0 : Z) (cs : list child) : bool :=
-  adj (fun a b => c_row b =? c_row a + c_h a + (if c_idx a <? top0 then 0 else gap)) cs.
-
-(* exact-gap layout: the statement of the property, refuted for gap > 0 by the class above *)
-Definition spacing_exact (gap : Z) (cs : list child) : bool := spacing gap 0 cs.
+(* each child starts where the previous one ends plus the gap *)
+Definition spacing (gap : Z) (cs : list child) : bool :=
+  adj (fun a b => c_row b =? c_row a + c_h a + gap) cs.
 
 Definition no_overlap (cs : list child) : bool :=
   adj (fun a b => c_row a + c_h a <=? c_row b) cs.
@@ -285,17 +283,27 @@ Definition cursor_visible (H cur : Z) (cs : list child) : bool :=
   existsb (fun c => (c_idx c =? cur) && visible_ok (c_row c) (c_h c) H) cs.
 
 (* the recorded top/offset point at the child that covers row 0 *)
-Definition anchor_ok (post : dstate) (cs : list child) : bool :=
-  forallb (fun c => negb (covers0 c) || ((d_top post =? c_idx c) && (d_off post =? - c_row c))) cs.
+Definition anchor_ok (gap : Z) (post : dstate) (cs : list child) : bool :=
+  forallb (fun c => negb (covers0 gap c) || ((d_top post =? c_idx c) && (d_off post =? - c_row c))) cs.
 
-Definition draw_obs_ok (gap : Z) (dc : bool) (hs : list Z) (H : Z) (pre : dstate) (sel : bool)
+(* scroll position kept: the draw re-anchored top/offset, i.e. some child (or the gap below it)
+   is on row 0, so that an idle redraw starts from the same place *)
+Definition scroll_kept (gap : Z) (cs : list child) : bool :=
+  match cs with [] => true | _ => existsb (covers0 gap) cs end.
+
+(* finding class scroll-past-end: everything drawn ends above row 0 *)
+Definition past_end (gap : Z) (cs : list child) : bool :=
+  match last_opt cs with Some l => c_row l + c_h l + gap <=? 0 | None => false end.
+
+(* [g] = true: with the guard of the recorded finding scroll-past-end *)
+Definition draw_obs_ok (g : bool) (gap : Z) (dc : bool) (hs : list Z) (H : Z) (pre : dstate) (sel : bool)
            (post : dstate) (cs : list child) : bool :=
-  heights_ok hs cs && consecutive cs && spacing gap (d_top pre) cs &&
-  ((gap <? 0) || no_overlap cs) &&
+  heights_ok hs cs && consecutive cs && spacing gap cs && no_overlap cs &&
   cols_ok dc (d_cur pre) cs &&
   (d_pend post =? 0) && (d_cur post =? d_cur pre) &&
-  ((gap <? 0) || anchor_ok post cs) &&
-  (if sel && (d_pend pre =? 0) && (0 <=? gap) && ioff hs pre && (d_cur pre <? zlen hs) && (0 <? H)
+  anchor_ok gap post cs &&
+  (scroll_kept gap cs || (g && past_end gap cs)) &&
+  (if sel && (d_pend pre =? 0) && ioff gap hs pre && (d_cur pre <? zlen hs) && (0 <? H)
    then cursor_visible H (d_cur pre) cs else true).
 
 Definition is_select (op : dop) (pre post : dstate) : bool :=
@@ -312,7 +320,7 @@ Definition index_step_ok (op : dop) (hs : list Z) (pre post : dstate) : bool :=
   | _ => negb (valid_index (d_cur pre) (zlen hs)) || valid_index (d_cur post) (zlen hs)
   end.
 
-Fixpoint dyn_trace_ok (gap : Z) (dc : bool) (hs : list Z) (pre : dstate) (sel : bool)
+Fixpoint dyn_trace_ok (g : bool) (gap : Z) (dc : bool) (hs : list Z) (pre : dstate) (sel : bool)
          (tr : list (dop * dobs)) : bool :=
   match tr with
   | [] => true
@@ -322,19 +330,26 @@ Fixpoint dyn_trace_ok (gap : Z) (dc : bool) (hs : list Z) (pre : dstate) (sel : 
       (oc =? 0) &&
       index_step_ok op hs pre post &&
       match op with
-      | DDraw w h => draw_obs_ok gap dc hs h pre sel post (map child_of_tuple cs)
+      | DDraw w h => draw_obs_ok g gap dc hs h pre sel post (map child_of_tuple cs)
       | _ => true
       end &&
-      dyn_trace_ok gap dc hs' post (is_select op pre post) rest
+      dyn_trace_ok g gap dc hs' post (is_select op pre post) rest
   end.
 
+(* the property (gaps are >= 0) *)
 Definition dyn_case_ok (c : dyn_case) : bool :=
-  let '(gap, dc, hs, tr) := c in dyn_trace_ok gap dc hs d_init false tr.
+  let '(gap, dc, hs, tr) := c in (0 <=? gap) && dyn_trace_ok false gap dc hs d_init false tr.
+(* the property with the input class of the recorded finding excluded *)
+Definition dyn_case_ok_guarded (c : dyn_case) : bool :=
+  let '(gap, dc, hs, tr) := c in (0 <=? gap) && dyn_trace_ok true gap dc hs d_init false tr.
 
 Definition c19_dyn_mismatches (cases : list dyn_case) : list Z :=
   bad_indices (fun c => negb (dyn_case_matches c)) cases.
 Definition c19_dyn_violations (cases : list dyn_case) : list Z :=
   bad_indices (fun c => negb (dyn_case_ok c)) cases.
+(* cases that fail the property only under the guard of finding scroll-past-end *)
+Definition c19_dyn_known (cases : list dyn_case) : list Z :=
+  bad_indices (fun c => negb (dyn_case_ok c) && dyn_case_ok_guarded c) cases.
 
 (* ====================================================================================== *)
 (* widgets/list.List                                                                       *)
